@@ -146,5 +146,6 @@ LEVEL_TEXT = ("Theorems in coq/theories/Properties/C20.v over a small-step model
 LEVEL_NOTE = ("Trusted: Coq kernel; the hand-written model (tied to the code by replaying every recorded step of real histories incl. "
               "the complete visible state after every step); the async-broadcast / async-lock / HashMap contracts; harness/hcalls. "
               "Runtime substrate (executor, wakers) assumed: protocol-level proof. The model keeps the labels of the pre-fix async_drop "
-              "(LDropSubs/LDropSender); they are proved unreachable (C20_no_async_drop_in_progress). The Vacant path of add_match is "
-              "modelled as before fix 3703ee13 (no second is_empty check under the msg_senders lock): see docs/C20.md.")
+              "(LDropSubs/LDropSender); they are proved unreachable (C20_no_async_drop_in_progress). The Vacant path of add_match follows "
+              "fix 3703ee13 (second is_empty check under the msg_senders lock; the model inserts the entry one step early, while "
+              "`subscriptions` is locked, and takes it back on failure).")
